@@ -158,6 +158,16 @@ class P:
             if a[0] != b[0]:
                 raise Unsupported("if branches of different kinds")
             return (a[0], "(if %s then %s else %s)" % (self.b(c), a[1], b[1]))
+        if tok == "u64::MAX":
+            return ("num", "18446744073709551615")
+        if tok == "u64::try_from":
+            self.eat("("); a = self.expr(); self.eat(")"); self.eat("."); m_ = self.eat()
+            if m_ != "unwrap_or":
+                raise Unsupported("u64::try_from(..).%s" % m_)
+            self.eat("("); d = self.expr(); self.eat(")")
+            if self.n(d) != "18446744073709551615":
+                raise Unsupported("u64::try_from(..).unwrap_or(<not u64::MAX>)")
+            return ("num", "(N.min %s 18446744073709551615)" % self.n(a))
         if tok == "u64::from":
             self.eat("("); a = self.expr(); self.eat(")")
             return ("num", "(if %s then 1 else 0)" % self.b(a)) if a[0] == "bool" else a
@@ -250,6 +260,38 @@ def translate_let(src, fn, var, coq_name, params, kind="num"):
     return "Definition %s %s := %s.\n" % (coq_name, " ".join("(%s : %s)" % (p_, "bool" if p_ in BOOL_PARAMS else "N") for p_ in params), e[1])
 
 
+def translate_tail(src, fn, coq_name, params, kind="num"):
+    """the final expression of fn (after its early-return guards), as a Gallina definition over [params]"""
+    _, body = fn_body(src, fn)
+    body = re.sub(r"//[^\n]*", "", body).strip()
+    # the tail is what follows the last ';' or '}' at nesting depth 0
+    depth, cut = 0, 0
+    for k, ch in enumerate(body):
+        if ch == "{":
+            depth += 1
+        elif ch == "}":
+            depth -= 1
+            if depth == 0:
+                cut = k + 1
+        elif ch == ";" and depth == 0:
+            cut = k + 1
+    tail = body[cut:].strip()
+    if not tail:
+        raise Unsupported("no tail expression in %s" % fn)
+    e = P(tokens(tail), {}, bools=[p_ for p_ in params if p_ in BOOL_PARAMS]).expr()
+    if e[0] != kind:
+        raise Unsupported("tail of %s is not a %s expression" % (fn, kind))
+    return "Definition %s %s := %s.\n" % (coq_name, " ".join("(%s : N)" % p_ for p_ in params), e[1])
+
+
+# textual rewrites applied to a source file before translation (field paths -> parameter names)
+REWRITES = {"src/fragmented.rs": [("self.config.timescale", "timescale")]}
+
+TAILS = [
+    ("src/codec/h265.rs", "hevc_nal_type", "hevc_nal_type_src", ["nal0"], "num"),
+    ("src/fragmented.rs", "ticks_to_ms", "ticks_to_ms_tail_src", ["ms"], "num"),
+]
+
 LETS = [
     # (file, function, let-variable, Gallina name, parameters, kind)
     ("src/muxer/mp4.rs", "adts_to_raw", "syncword", "adts_syncword_src", ["frame0", "frame1"], "num"),
@@ -267,6 +309,7 @@ LETS = [
     ("src/muxer/mp4.rs", "encode_language_code", "packed", "language_packed_src", ["c1", "c2", "c3"], "num"),
     ("src/codec/h264.rs", "extract_avc_config", "nal_type", "h264_nal_type_src_a", ["nal0"], "num"),
     ("src/codec/h264.rs", "is_h264_keyframe", "nal_type", "h264_nal_type_src_b", ["nal0"], "num"),
+    ("src/fragmented.rs", "ticks_to_ms", "ms", "ticks_to_ms_ms_src", ["ticks", "timescale"], "num"),
 ]
 
 
@@ -286,10 +329,24 @@ def generate(repo="/repo"):
             problems.append("%s: %s" % (name, e))
             text += "(* %s: NOT TRANSLATED: %s *)\n" % (name, e)
     cache = {}
+
+    def load(f):
+        if f not in cache:
+            t_ = open(repo + "/" + f).read()
+            for a_, b_ in REWRITES.get(f, []):
+                t_ = t_.replace(a_, b_)
+            cache[f] = t_
+        return cache[f]
+
+    for f, fn, coq, params, kind in TAILS:
+        try:
+            text += translate_tail(load(f), fn, coq, params, kind)
+        except Unsupported as e:
+            problems.append("%s %s (tail): %s" % (f, fn, e))
+            text += "(* %s tail: NOT TRANSLATED: %s *)\n" % (fn, e)
     for f, fn, var, coq, params, kind in LETS:
         try:
-            if f not in cache:
-                cache[f] = open(repo + "/" + f).read()
+            load(f)
             text += translate_let(cache[f], fn, var, coq, params, kind)
         except Unsupported as e:
             problems.append("%s %s.%s: %s" % (f, fn, var, e))
